@@ -6,6 +6,23 @@ HERE = os.path.dirname(os.path.dirname(os.path.abspath(__file__)))
 sys.path.insert(0, HERE)
 
 CLAIMS = {
+
+    'C01': ('proof',
+            'Thread-modular contracts on every method of the real BoundedSPSCQueueImpl<size_t> (constructor included): a global invariant proved inductive over both threads\' methods from arbitrary invariant states with symbolic wrapping 64-bit positions, every capacity and every batch threshold; atomic loads/stores are contract-only stubs carrying ghost release/acquire views, so a load returns ANY value the C++11 rules allow and safety (grant only inside released space, consumer only shown committed bytes) is stated against the happens-before frontier, not against x86 behaviour. Address-function lemma (no two unreleased records share a byte, contiguous, inside the 2*capacity buffer) over full 64-bit domains.',
+            'Assumed: exactly one producer and one consumer; construction happens-before both; C++11 release-sequence rules as encoded in the view stubs; the reduction argument (one foreign access per method => atomic action) is checked syntactically; paper lemma from INV + grants + address lemma + size accounting (C04) to stream equality. Pointer obligations of prepare_write/prepare_read need capacity <= 2^40 (CBMC object size); arithmetic obligations are unbounded.',
+            'CBMC code contracts (goto-instrument --dfcc) on extracted real code, rely/guarantee with ghost release/acquire views, SAT (cadical)', '§2.3, §3 C01'),
+    'C02': ('proof',
+            'Contracts on the real UnboundedSPSCQueue::_handle_full_queue, shrink, prepare_write, _read_next_queue, prepare_read, empty and the forwarding methods, with the bounded-queue methods replaced by their C01 contracts (opaque form; a refinement lemma per method proves the opaque contract from the full one). Nodes are heap objects: publishing the next buffer puts the old one in the frees set, so any later producer access is a pointer-check failure; the consumer may free a buffer only under a drain assertion that needs the acquire load of next and the re-check. Growth cap, error above max, one allocation per switch are postconditions for all sizes (loop contract on the doubling loop).',
+            'Assumed: Node constructor = proved BoundedSPSCQueue constructor postcondition; record size <= 2^62, max capacity <= 2^61; release/acquire on Node::next as encoded in the stubs; destructor loop not covered; configuration precondition next_power_of_two(initial) <= max.',
+            'CBMC code contracts with heap objects (is_fresh / frees / was_freed), ghost publication state, loop contracts, SAT (cadical)', '§3 C02'),
+    'C09': ('proof',
+            'Safety form of the liveness statement, proved over the REAL lowered bodies: (1) a backend pass (any number of reads, commit_read iff something was read) keeps "no unpublished reader lag unless unread data is known" (inductive lemma BQ.lem_idle, loop contract); (2) drained queue + idle consumer + nothing uncommitted => prepare_write(n <= capacity) succeeds once the producer reloads (BQ.lem_quiescent); helper clauses on commit_read / prepare_write; unbounded queue: a record up to the (power-of-two) maximum is granted on an empty queue, growing if needed.',
+            'Partial correctness only: "after finitely many polls" is argued from the quiescence obligation, the retry loop itself is not proved to terminate. Assumed: the producer eventually reads the latest published reader position (cache-coherence liveness); shape of a backend pass (proved separately for the real read loop where unit BW.read_decode exists). Known finding nonpow2max (non-power-of-two maximum capacity) is reported as KNOWN-FINDING.',
+            'CBMC code contracts, inductive lemma over real function bodies (loop contract), SAT (cadical)', '§3 C09'),
+    'C20': ('proof',
+            'Contracts on the real ThreadContextManager::add_invalid_thread_context / has_invalid_thread_context / remove_shared_invalidated_thread_context and ScopedThreadContext destructor against a ghost mathematical count of exited-unreclaimed contexts (any value up to 2^22): the counter field is modelled at the width the source declares, so has_invalid <=> count != 0 fails for a narrow counter; removal erases exactly the given context once (loop contract over the registry shim) and un-counts it once; shrink takes effect (UnboundedSPSCQueue::shrink, producer_capacity) and empty() never reports a queue empty whose producer moved on.',
+            'Assumed: sequentially consistent interleavings for valid/counter flags (DESIGN §2.3 last paragraph: the relaxed valid flag is an observation, not a claim); std::vector registry as tracked-slot shim; at most 2^22 threads; the backend-side cleanup predicate and shrink request are covered by BW.* units where present.',
+            'CBMC code contracts with ghost counter at declared field width, loop contracts, SAT (cadical)', '§3 C20'),
     # id: (level category, level text, level_note, technique, design_ref)
     'C18': ('proof',
             'Function contracts on the real BacktraceStorage::store / process / set_capacity (cut from the preprocessed header and lowered to C on every run) against the abstract sequence view "most recent min(capacity, stored) statements, oldest first"; CBMC (DFCC) discharges every obligation for every capacity, index and size, with a loop contract on the replay loop, so the proof is unbounded in capacity and history (any reachable or unreachable pre-state satisfying the representation invariant).',
